@@ -250,12 +250,19 @@ def run_c14(prop, tier, seed, t0):
     extra = ["--random", "3000" if quick else "200000"] + ([] if quick else ["--all-reps"])
     jobs = tbl_jobs("dbg", "cmp", seed, 8 if quick else 16, extra, "cmp-dbg", parity=["odd", "even"])
     jobs += tbl_jobs("rel", "cmp", seed + 1, 4 if quick else 16, extra, "cmp-rel", parity=["even", "odd"])
+    # word-at-a-time or pointer-width dependent comparison / hashing code would only go wrong on other targets:
+    # seeded pairs (no exhaustive part) interpreted for big-endian s390x and 32-bit i686 under Miri
+    for tname, target in (("s390x", "s390x-unknown-linux-gnu"), ("i686", "i686-unknown-linux-gnu")):
+        mj = miri_jobs("cmpfmt", [["cmp", "--no-exhaustive", "--seed", str(seed + k), "--shard", str(k), "--nshards", "2", "--random", "40" if quick else "300"] for k in range(2)], "miri-" + tname + "-cmp", seeds=None, target=target, timeout=2400)
+        for j in mj:
+            j.env["MIRIFLAGS"] = "-Zmiri-ignore-leaks"
+        jobs += mj
     agg = Agg(prop)
     for j in run_jobs(jobs):
         agg.absorb(j)
     rule = ("every comparison impl instantiation (Bytes/BytesMut x {Self,[u8],&[u8],str,&str,Vec<u8>,&Vec<u8>,String,&String,&Self, the other crate type}, both operand orders where the impl exists) "
             "is invoked through the operators ==,!=,<,<=,>,>= and partial_cmp/cmp on all 85x85 pairs of strings of length<=3 over {00,'a','b',7f} (exhaustive) plus seeded random longer/prefix/non-UTF-8 pairs, "
-            "crate-side operands in 6 Bytes / 4 BytesMut representations, odd and even allocator parity; Hash and Borrow<[u8]> compared with the slice. "
+            "crate-side operands in 6 Bytes / 4 BytesMut representations, odd and even allocator parity; Hash (SipHash and a hasher that keeps the write_* calls apart) and Borrow<[u8]> compared with the slice; the seeded pairs (incl. pairs that differ in two bytes of opposite sense inside one 8-byte block) are also interpreted for big-endian s390x and 32-bit i686 under Miri. "
             "A cell = (impl | eq/ord | relation class eq/lt/lt-prefix/gt/gt-prefix).")
     return finish(prop, tier, seed, agg, t0, "exploration", rule, extra={"impl_pairs": 34}, exhaustive=True, min_eval_key="comparisons",
                   assumptions=["<[u8]>::cmp / == / DefaultHasher on the slices are the reference semantics"])
